@@ -422,8 +422,9 @@ theorem arr_insert_oom_atomic (a : Hawk.Arr.Arr) (pos v : Nat) (o : Hawk.Arr.Ora
     (hfail : (Hawk.Arr.insert a pos v o).ret ≠ .ok pos) : (Hawk.Arr.insert a pos v o).arr = a := by
   have := Hawk.Arr.insert_spec a pos v o h
   simp only at this
-  rcases this with h1 | h2
+  rcases this with h1 | h2 | h3
   · exact absurd h1.1 hfail
   · exact h2.2.1
+  · exact h3.2.1
 
 end Hawk.Oom
